@@ -402,6 +402,9 @@ func Run(tier string, seed int64, outDir string) *common.Meta {
 	evals += endToEnd(meta, outDir, src.String(), cons)
 	evals += crossArch(meta, outDir)
 	evals += ruleguardIntegrator(meta, outDir)
+	evals += ruleguardListParams(meta, outDir, common.NewRand(seed, "c14-lists"), tier)
+	evals += ruleguardFailOnLists(meta, outDir)
+	evals += boolParams(meta)
 	evals += archDependentParam(meta)
 
 	meta.Evaluations = evals
